@@ -164,11 +164,11 @@ def _rows_clauses(w, tag, st, pre_flows, post):
         w.ensure(f'{tag}: total[{cas}] unchanged', w.eq(tot[cas], want[cas]))
 
 
-def _common_clauses(w, tag, st, post, T, P):
-    """T, P are the values expected after the step: those of the pre-state unless the step writes them."""
+def _common_clauses(w, tag, st, post, T, P, word='unchanged'):
+    """T, P are the values expected after the step: those of the pre-state unless the step writes / restores them."""
     s = st.s
-    w.ensure(f'{tag}: T unchanged', w.eq(post['T'], T))
-    w.ensure(f'{tag}: P unchanged', w.eq(post['P'], P))
+    w.ensure(f'{tag}: T {word}', w.eq(post['T'], T))
+    w.ensure(f'{tag}: P {word}', w.eq(post['P'], P))
     w.ensure(f'{tag}: same thermal condition object', w.And(s._thermal_condition is st.tc))
     w.ensure(f'{tag}: rep_ok', W.rep_ok(w, s))
     # views obtained earlier belong to this multi-phase incarnation only
@@ -356,7 +356,7 @@ def _step(w, st, i, op, must_apply=False):
                  w.And(w.eq(s.T, t), w.eq(s.P, pp)))
         w.ensure(f'{tag}: phases and class unchanged', w.And(post['phases'] == phases, post['class'] == pre['class']))
         _rows_clauses(w, tag, st, flows, post)
-        _common_clauses(w, tag, st, post, t, pp)
+        _common_clauses(w, tag, st, post, t, pp, word='as written')
         _view_reads(w, tag, st, post, fresh=phases if multi else ())
         if multi: st.held.setdefault(phases[-1], v)
     # ---- save / restore
@@ -380,7 +380,7 @@ def _step(w, st, i, op, must_apply=False):
             w.ensure(f'{tag}: total[{cas}] restored',
                      w.eq(sum([v for (p, c), v in post['flows'].items() if c == cas], 0.),
                           sum([v for (p, c), v in sv['obs']['flows'].items() if c == cas], 0.)))
-        _common_clauses(w, tag, st, post, sv['obs']['T'], sv['obs']['P'])     # T, P equal the saved values
+        _common_clauses(w, tag, st, post, sv['obs']['T'], sv['obs']['P'], word='restored')
         _view_reads(w, tag, st, post)
     else:
         raise RuntimeError(f'unknown operation {op}')
